@@ -50,10 +50,16 @@ func (blockchain *Blockchain) AddBlock(timestamp int64, transactions []*ledger.T
 			return fmt.Errorf("unable to calculate last block hash: %w", err)
 		}
 	}
+	// Confirm the previous block first, so that the registered and removed addresses of the new block are
+	// computed from the same state peers will verify it against
+	if err := blockchain.confirmLastBlock(); err != nil {
+		return err
+	}
 	addedAddresses := blockchain.registry.Filter(newAddresses)
 	removedAddresses := blockchain.registry.RemovedAddresses()
 	block := ledger.NewBlock(previousHash, addedAddresses, removedAddresses, timestamp, transactions)
-	return blockchain.addBlock(block)
+	blockchain.blocks = append(blockchain.blocks, block)
+	return nil
 }
 
 func (blockchain *Blockchain) Blocks(startingBlockHeight uint64) []*ledger.Block {
@@ -266,6 +272,14 @@ func (blockchain *Blockchain) Update(timestamp int64) {
 }
 
 func (blockchain *Blockchain) addBlock(block *ledger.Block) error {
+	if err := blockchain.confirmLastBlock(); err != nil {
+		return err
+	}
+	blockchain.blocks = append(blockchain.blocks, block)
+	return nil
+}
+
+func (blockchain *Blockchain) confirmLastBlock() error {
 	if !blockchain.isEmpty() {
 		lastBlock := blockchain.blocks[len(blockchain.blocks)-1]
 		if err := blockchain.utxosManager.UpdateUtxos(lastBlock.Transactions(), lastBlock.Timestamp()); err != nil {
@@ -273,7 +287,6 @@ func (blockchain *Blockchain) addBlock(block *ledger.Block) error {
 		}
 		blockchain.registry.Update(lastBlock.AddedRegisteredAddresses(), lastBlock.RemovedRegisteredAddresses())
 	}
-	blockchain.blocks = append(blockchain.blocks, block)
 	return nil
 }
 
